@@ -364,7 +364,7 @@ func runC03(r *core.Run) {
 			sql := "SELECT * FROM t CROSS JOIN u"
 			if jk != "cross" {
 				op := []string{"=", "=", "=", "<", ">="}[rng.Intn(5)]
-				col := []int{4, 2, 3}[rng.Intn(3)] // k, a or b
+				col := []int{4, 2, 3, 1, 1}[rng.Intn(5)] // k, a, b or id (every row has its partner in one chunk of the other table only)
 				on = cexpr{"k": "cmp", "op": op, "l": cexpr{"k": "col", "i": col}, "r": cexpr{"k": "col", "i": 4 + col}}
 				ons := names[col-1] + " " + op + " " + names[3+col]
 				if rng.Intn(3) == 0 {
